@@ -80,7 +80,7 @@ class QModel:
               and b.impl_trait is None]
         self.wmethods = wm
         # spawn function: the fn calling thread::spawn ; the worker loop is the worker method its closure calls
-        self.spawn = [b for b in cad.all_bodies if b.def_kind == 'Fn' and b.file.endswith('queuing.rs')
+        self.spawn = [b for b in cad.all_bodies if b.def_kind in ('Fn', 'AssocFn') and in_module_of(b, Q) and not b.path.endswith('::tests') and '::tests::' not in b.path
                       and any(callee_is(t, 'std::thread::functions::spawn', 'std::thread::builder::Builder::spawn')
                               for _, t in b.calls())]
         wpaths = set(b.path for b in wm)
